@@ -336,3 +336,147 @@ class ModelInit(Spec):
         if self.warm:
             out.append(("C08: after the catch-up the clock is at step 0 and reads the (restart) start time", z3.And(timer.attrs["step"] == 0, timer.attrs["time"] == z3.Int("t_start"))))
         return out
+
+
+# ---------------------------------------------------------------- load_module / init_module (C19, C18)
+
+
+class PathM(ModelObject):
+    def __init__(self, name, exists):
+        self.name, self._exists = name, exists
+
+    def pv_getattr(self, cx, name):
+        if name == "exists":
+            f = lambda interp: self._exists  # noqa: E731
+            f._pyvc_model = True
+            return f
+        if name == "stem":
+            base = self.name.split("/")[-1]
+            return base[:-3] if base.endswith(".py") else base
+        raise PyRaise("AttributeError", (name,))
+
+
+class Ghost(ModelObject):
+    def __init__(self, tag, **kw):
+        self.tag = tag
+        self.kw = kw
+
+    def pv_getattr(self, cx, name):
+        if name == "loader":
+            return Ghost("loader", spec=self)
+        if name == "exec_module":
+            me = self
+
+            def exec_module(interp, mod):
+                mod.kw["executed_from"] = me.kw["spec"].kw.get("path")
+
+            exec_module._pyvc_model = True
+            return exec_module
+        if self.tag == "module" and name in self.kw.get("classes", ()):
+            return Ghost("class", module=self, name=name)
+        raise PyRaise("AttributeError", (name,))
+
+    def pv_call(self, interp, args, kwargs):
+        if self.tag != "class":
+            raise PyRaise("TypeError", ("not callable",))
+        return Ghost("instance", cls=self, args=list(args), kwargs=dict(kwargs))
+
+
+class LoadModule(Spec):
+    """load_module: a file <name>.py that exists is loaded and returned (never the module of the same name on sys.path);
+    otherwise the importable module; neither: SystemExit."""
+
+    func = "ladim.model.load_module"
+    properties = ("C19", "C18")
+    inline = ()
+
+    def __init__(self, given):
+        self.given = given
+        self.name = f"model.load_module[name given as '{given}']"
+        spec = self
+
+        def path(interp, name):
+            return PathM(name, z3.Bool("file_exists"))
+
+        def spec_from_file_location(interp, internal, file_name):
+            return Ghost("spec", internal=internal, path=file_name.name)
+
+        def module_from_spec(interp, sp):
+            return Ghost("module", origin="file", spec=sp, classes=("IBM",))
+
+        def import_module(interp, name):
+            if interp.cx.fork(z3.Bool("importable")):
+                return Ghost("module", origin="sys.path", name=name, classes=("IBM",))
+            raise PyRaise("ModuleNotFoundError", (name,))
+
+        self.externals = {"pathlib.Path": path, "importlib.util.spec_from_file_location": spec_from_file_location, "importlib.util.module_from_spec": module_from_spec, "importlib.import_module": import_module}
+
+    def inputs(self, cx):
+        return Args(module_name=self.given)
+
+    def raises(self, cx, a):
+        return [(z3.And(z3.Not(z3.Bool("file_exists")), z3.Not(z3.Bool("importable"))), "SystemExit")]
+
+    def model(self, cx, a):
+        return NotImplemented
+
+    def ensures(self, cx, a, result):
+        base = self.given[:-3] if self.given.endswith(".py") else self.given
+        ok = isinstance(result, Ghost) and result.tag == "module"
+        if not ok:
+            return [("returns a module object", False)]
+        from_file = result.kw.get("origin") == "file"
+        out = [("C19: the file given by path is the one that runs: loaded from <name>.py exactly when that file exists, otherwise from sys.path", z3.Bool("file_exists") if from_file else z3.Not(z3.Bool("file_exists")))]
+        if from_file:
+            out.append(("C19: the module object is created from, and executed from, that very file", result.kw["spec"].kw.get("path") == base + ".py" and result.kw.get("executed_from") == base + ".py"))
+            out.append(("C19: the internal name cannot collide with an importable module", result.kw["spec"].kw.get("internal") == "ladim_custom_" + base.split("/")[-1]))
+        else:
+            out.append(("C19: imported by its (suffix-free) name", result.kw.get("name") == base))
+        return out
+
+
+class InitModule(Spec):
+    """init_module: the class named for the module kind is taken from the module given in the section (default
+    per kind), the 'module' key is consumed, and the class is called with modules= and the remaining keys."""
+
+    func = "ladim.model.init_module"
+    properties = ("C19", "C18")
+    inline = ()
+
+    def __init__(self, kind, with_module):
+        self.kind, self.with_module = kind, with_module
+        self.name = f"model.init_module[{kind}, module {'given' if with_module else 'defaulted'}]"
+        spec = self
+
+        def load(interp, args, kwargs):
+            spec._loaded = args[0]
+            classes = ("Output", "TimeKeeper", "ParticleReleaser", "Grid", "Forcing", "Tracker", "State", "IBM")
+            return Ghost("module", origin="loaded", name=args[0], classes=classes)
+
+        self.callees = {"ladim.model.load_module": load}
+
+    def inputs(self, cx):
+        conf = dict(alpha=z3.Int("alpha"), beta="b")
+        if self.with_module:
+            conf["module"] = "user/my_module"
+        return Args(module_name=self.kind, conf_dict=conf, all_modules_dict=dict(marker=1))
+
+    def model(self, cx, a):
+        return NotImplemented
+
+    def ensures(self, cx, a, result):
+        defaults = dict(output="ladim.out_netcdf", release="ladim.release", grid="ladim.ROMS", time="ladim.timekeeper", forcing="ladim.ROMS", tracker="ladim.tracker", state="ladim.state", ibm="ladim.ibm")
+        classes = dict(output="Output", time="TimeKeeper", release="ParticleReleaser", grid="Grid", forcing="Forcing", tracker="Tracker", state="State", ibm="IBM")
+        ok = isinstance(result, Ghost) and result.tag == "instance"
+        if not ok:
+            return [("returns the constructed module object", False)]
+        want = "user/my_module" if self.with_module else defaults[self.kind]
+        cls = result.kw["cls"]
+        return [
+            ("C19/C18: the module is the one named in the section, else the default for its kind", getattr(self, "_loaded", None) == want and cls.kw["module"].kw.get("name") == want),
+            ("C19: the main class of that kind is instantiated", cls.kw["name"] == classes[self.kind]),
+            ("C18: constructed with modules= and exactly the remaining keys of the section ('module' consumed)", result.kw["args"] == [] and set(result.kw["kwargs"]) == {"modules", "alpha", "beta"} and result.kw["kwargs"]["modules"] is a.all_modules_dict and "module" not in a.conf_dict),
+        ]
+
+
+LOADER_UNITS = [LoadModule("my_ibm"), LoadModule("sub/my_ibm.py")] + [InitModule(k, w) for k in ("ibm", "output", "grid", "forcing", "state", "time", "release", "tracker") for w in (False, True)]
